@@ -484,7 +484,7 @@ def drive(role, res, rng, flags, tier, search, replay_cases=None):
             t = threading.Thread(target=lambda: st.h.send_and_waitfor_response(CAT_CLS[(1, 1)]()), daemon=True)
             mark = len(st.rig.log)
             t.start()
-            end = time.monotonic() + gemrig.WAIT
+            end = time.monotonic() + gemrig.deadline()
             sysb = None
             while sysb is None and time.monotonic() < end:
                 for e in st.rig.frames(st.rig.log[mark:]):
@@ -494,7 +494,7 @@ def drive(role, res, rng, flags, tier, search, replay_cases=None):
             if sysb is None:
                 raise Stuck("own S1F1 not written")
             st.send(*[(1, 2), (1, 3), (99, 1), (1, 0), (1, 1)][k], [0, 1, 1, 0, 1][k], b"", "awaited", system=sysb)
-            t.join(gemrig.WAIT)
+            t.join(gemrig.deadline())
         # 6. a long mixed random sequence
         pool = CATALOGUE + uncatalogued_pairs(rng, "quick", False)[:40]
         used = []
@@ -522,7 +522,7 @@ def quiet_link_cases(role, res, flags):
     st.rig.p._send_queue = q
     q.delay = 0.05
     old_wait = gemrig.WAIT
-    gemrig.WAIT = 2.0
+    gemrig.WAIT = 12.0  # far above anything machine load can cause for one 50 ms delayed hand-over; the loop ends at the first stall
     try:
         for (s, f, body) in ((1, 1, b""), (99, 1, b""), (1, 3, b"\xff")):
             try:
